@@ -78,8 +78,8 @@ def run(ctx):
                    sample={"payout": {k: show(v)[:80] if isinstance(v, tuple) else v for k, v in (pay[0] or {}).items()} if pay else None})
         else:
             ctx.ob("R12.3", "ibc_packet_receive/ack kind", None, detail="UNDECIDED: cannot classify the acknowledgement %s" % show(r)[:200])
-    ctx.floor("R12.1", "error-ack paths", n_err, 4)
-    ctx.floor("R12.3", "success-ack paths", n_ok, 2)
+    ctx.floor("R12.1", "error-ack paths", n_err, 2)
+    ctx.floor("R12.3", "success-ack paths", n_ok, 1)
     # ---------------- R12.5 accounting
     acct = {}
     def record(name, p):
@@ -211,4 +211,4 @@ def check_packets(ctx, ex, it):
                                     if not lim:
                                         prob = "packet emitted without the guard amount <= u64::MAX (Ics20Packet::validate)"
             ctx.ob("R12.4", key, prob is None, detail=prob, sites=[e.site for e in w], sample={"packet": show(ents[0][1])[:300] if ents else None})
-    ctx.floor("R12.4", "transfer Ok-paths", n, 6)
+    ctx.floor("R12.4", "transfer Ok-paths", n, 2)
